@@ -470,6 +470,12 @@ func (b *BaseStore) Load(ctx context.Context, amount int) error {
 		amount = *b.options.MaxHistory
 	}
 
+	// a non-positive limit loads everything (Join(-1) keeps every entry, but
+	// Join(0) would trim the log down to nothing)
+	if amount <= 0 {
+		amount = -1
+	}
+
 	var localHeads, remoteHeads []*entry.Entry
 	localHeadsBytes, err := b.Cache().Get(ctx, datastore.NewKey("_localHeads"))
 	if err != nil && err != datastore.ErrNotFound {
@@ -576,8 +582,24 @@ func (b *BaseStore) Load(ctx context.Context, amount int) error {
 
 			span.AddEvent("store-head-loaded")
 
+			// Join keeps the last `size` entries of the merged log and panics
+			// when there are fewer: only ask for a trim when one is needed
+			size := amount
+			if size > -1 {
+				merged := oplog.Len()
+				for _, e := range l.GetEntries().Slice() {
+					if _, held := oplog.Get(e.GetHash()); !held {
+						merged++
+					}
+				}
+
+				if size >= merged {
+					size = -1
+				}
+			}
+
 			span.AddEvent("store-heads-joining")
-			if _, inErr = oplog.Join(l, amount); inErr != nil {
+			if _, inErr = oplog.Join(l, size); inErr != nil {
 				span.AddEvent("store-heads-joining-failed")
 				// err = fmt.Errorf("unable to join log: %w", err)
 				// TODO: log
